@@ -43,7 +43,7 @@ struct mthread {
 	pthread_mutex_t *wait_m; int32_t *wait_f; int woken; int wake_kind; pthread_cond_t *wait_c; int join_t;
 	struct sbe sb[SBMAX]; int nsb;
 	int pending, need_drain, primed;
-	int sigblocked, sig_pending, in_sig;
+	int sigblocked, sig_pending, in_sig, sig_ok;
 	int idle_streak;
 	const char *opname; int opcls; long opsteps;
 	int cpu;
@@ -191,12 +191,21 @@ static void flush1(int t)
 			fmtv(b, sizeof b, n ? n->kind : VK_INT, m->sb[0].sz, m->sb[0].v)); trace_check(); }
 	memmove(&m->sb[0], &m->sb[1], sizeof(struct sbe) * (m->nsb - 1)); m->nsb--;
 }
-static void drain(int t) { while (T[t].nsb) flush1(t); }
+static void replay_forced_flush(int t);
+static void drain(int t) { while (T[t].nsb) { replay_forced_flush(t); flush1(t); } }
 
 /* ---------------------------------------------------------------- scheduler */
 static int prio[4 * MAXT]; static long chg[8]; static int nchg = 3; static long pct_len = 150; static int pct_init; static int lowprio;
 static int uniform;
-static char (*rsched)[28]; static long nrs = -1, irs; static int rs_auto_benign;
+static char (*rsched)[28]; static long nrs = -1, irs; static int rs_auto_benign; static int replay_diverged;
+
+/* replay: a flush forced by the program itself (fence-like plain store, full buffer) stands for the next scheduled F:<t> */
+static void replay_forced_flush(int t)
+{
+	if (nrs < 0) return;
+	char want[40]; snprintf(want, sizeof want, "F:%s", T[t].name);
+	for (long j = irs; j < nrs; j++) if (!strcmp(rsched[j], want)) { memmove(&rsched[j], &rsched[j + 1], sizeof(*rsched) * (nrs - j - 1)); nrs--; return; }
+}
 
 static int enabled(int i)
 {
@@ -241,8 +250,8 @@ static void schedule(void)
 		for (i = 0; i < nthreads; i++) {
 			if (enabled(i)) { if (!(ending && T[i].idle_streak >= 3)) cand[n++] = i; }
 			if (T[i].nsb && (solo < 0 || 1)) cand[n++] = MAXT + i;
-			if (solo < 0 && sighandler && sig_budget > 0 && sig_at < 0 && T[i].state == ST_RUN && !T[i].daemon && !T[i].sigblocked && T[i].in_sig < sig_nest_max && T[i].primed
-			    && (!T[i].need_drain || T[i].nsb == 0)) cand[n++] = 2 * MAXT + i;
+			if (solo < 0 && sighandler && sig_budget > 0 && sig_at < 0 && T[i].state == ST_RUN && !T[i].daemon && T[i].sig_ok && !T[i].sigblocked && T[i].in_sig < sig_nest_max && T[i].primed
+			    && T[i].nsb == 0) cand[n++] = 2 * MAXT + i;	/* delivery goes through the kernel: full barrier */
 			if (solo < 0 && T[i].state == ST_BLOCK_FUTEX && !T[i].woken && (spur_budget > 0 || eintr_budget > 0)) cand[n++] = 3 * MAXT + i;
 		}
 		/* fault agents alone cannot keep a run alive */
@@ -268,7 +277,10 @@ static void schedule(void)
 				} else {
 					c = agent_by_name(rsched[irs]); int ok = 0;
 					for (i = 0; i < n; i++) if (cand[i] == c) ok = 1;
-					if (c < 0 || !ok) vrt_fail("REPLAY_DIVERGED at decision %ld: agent %s not enabled", irs, rsched[irs]);
+					if (c < 0 || !ok) {	/* the code cannot follow the given behaviour here: record it and continue with the seeded scheduler */
+						if (trace) { fprintf(trace, "{\"t\":\"main\",\"op\":\"replay_diverged\",\"at\":%ld,\"agent\":\"%s\"}\n", irs, rsched[irs]); }
+						replay_diverged = 1; nrs = -1; continue;
+					}
 					irs++;
 				}
 			}
@@ -321,6 +333,7 @@ static void run_signal(void)
 		m->sig_pending--; m->in_sig++;
 		if (trace) { fprintf(trace, "{\"t\":\"%s\",\"op\":\"sig_enter\",\"nest\":%d}\n", m->name, m->in_sig); trace_check(); }
 		sighandler();
+		while (m->nsb) { m->pending = UV_MB; m->need_drain = 1; yield_here(); }	/* sigreturn: full barrier */
 		if (trace) { fprintf(trace, "{\"t\":\"%s\",\"op\":\"sig_exit\",\"nest\":%d}\n", m->name, m->in_sig); trace_check(); }
 		m->in_sig--;
 	}
@@ -332,8 +345,8 @@ static void sched_point(int op, int need_drain)
 	struct mthread *m = &T[self];
 	m->pending = op; m->need_drain = need_drain && vrt_tso; m->primed = 1;
 	idle_mark(op);
-	if (sig_at >= 0 && sighandler && !strcmp(sig_name, m->name) && !m->sigblocked && m->in_sig < sig_nest_max) {
-		if (sig_points++ == sig_at) { m->sig_pending++; run_signal(); m->pending = op; m->need_drain = need_drain && vrt_tso; }
+	if (sig_at >= 0 && sighandler && !strcmp(sig_name, m->name) && m->sig_ok && !m->sigblocked && m->in_sig < sig_nest_max) {
+		if (sig_points++ == sig_at) { drain(self); m->sig_pending++; run_signal(); m->pending = op; m->need_drain = need_drain && vrt_tso; }
 	}
 	for (;;) {
 		yield_here();
@@ -362,6 +375,7 @@ void uv_pre(int op, const volatile void *addr, unsigned int sz, int mo, const ch
 	qcheck(addr, sz, file, line);
 	int nd = !(op == UV_LD || op == UV_RELAX || (op == UV_ST && mo < 5));
 	sched_point(op, nd);
+	qcheck(addr, sz, file, line);	/* again: the object may have been reclaimed while this thread was parked at the access */
 	T[self].in_hook = 1;
 }
 void uv_post(int op, const volatile void *addr, unsigned int sz, unsigned long a, unsigned long b, unsigned long res, int mo, const char *file, int line)
@@ -596,6 +610,7 @@ int vrt_pthread_sigmask(int how, const sigset_t *set, sigset_t *old)
 int vrt_sched_getcpu(void) { return self >= 0 ? T[self].cpu : 0; }
 void vrt_set_cpu(int cpu) { if (self >= 0) T[self].cpu = cpu; }
 void vrt_set_sighandler(void (*fn)(void)) { sighandler = fn; }
+void vrt_sig_allow(int on) { if (self >= 0) T[self].sig_ok = on; }
 
 /* ---------------------------------------------------------------- threads */
 const char *vrt_self_name(void) { return tn(self); }
